@@ -6,16 +6,17 @@ from engines import fedsim, fedgen
 
 generate = fedgen.generate
 
-_Q = {"det_sample": 4, "min_budget": 40, "run_timeout": 150}
+_Q = {"det_sample": 6, "min_budget": 40, "run_timeout": 150, "wall": 55}
+_T = {"det_sample": 24, "min_budget": 90, "run_timeout": 300, "wall": 1200}
 PLAN = {
-    "C02": {"quick": dict(_Q, runs=32, wall=75), "thorough": dict(_Q, runs=1200, wall=1000)},
-    "C03": {"quick": dict(_Q, runs=96, wall=70), "thorough": dict(_Q, runs=6000, wall=1000)},
-    "C04": {"quick": dict(_Q, runs=160, wall=70), "thorough": dict(_Q, runs=12000, wall=1000)},
-    "C05": {"quick": dict(_Q, runs=128, wall=70), "thorough": dict(_Q, runs=8000, wall=1000)},
-    "C08": {"quick": dict(_Q, runs=112, wall=70), "thorough": dict(_Q, runs=6000, wall=1000)},
-    "C10": {"quick": dict(_Q, runs=192, wall=70), "thorough": dict(_Q, runs=12000, wall=1000)},
-    "C17": {"quick": dict(_Q, runs=96, wall=70), "thorough": dict(_Q, runs=5000, wall=1000)},
-    "C20": {"quick": dict(_Q, runs=96, wall=70), "thorough": dict(_Q, runs=5000, wall=1000)},
+    "C02": {"quick": dict(_Q, runs=400), "thorough": dict(_T, runs=12000)},
+    "C03": {"quick": dict(_Q, runs=1500), "thorough": dict(_T, runs=60000)},
+    "C04": {"quick": dict(_Q, runs=2000), "thorough": dict(_T, runs=80000)},
+    "C05": {"quick": dict(_Q, runs=1500), "thorough": dict(_T, runs=60000)},
+    "C08": {"quick": dict(_Q, runs=1500), "thorough": dict(_T, runs=60000)},
+    "C10": {"quick": dict(_Q, runs=2500), "thorough": dict(_T, runs=100000)},
+    "C17": {"quick": dict(_Q, runs=1200), "thorough": dict(_T, runs=50000)},
+    "C20": {"quick": dict(_Q, runs=1200), "thorough": dict(_T, runs=50000)},
 }
 
 COMPONENTS = {
